@@ -67,6 +67,8 @@ pub enum AddrG {
     Zero,
     Top,
     Misaligned(u16),
+    /// absolute boundary value
+    Abs(u64),
 }
 
 #[derive(Debug, Clone, PartialEq, Eq, Hash, Serialize, Deserialize)]
@@ -211,6 +213,7 @@ pub fn resolve_addr(a: &AddrG, bt: &Built) -> u64 {
             }
             bt.stacks[0].base + (*o as u64 % 4000) * 1 + 1
         }
+        AddrG::Abs(a) => *a,
     }
 }
 
@@ -388,6 +391,10 @@ pub fn addr_strategy() -> impl Strategy<Value = AddrG> {
         1 => Just(AddrG::Zero),
         1 => Just(AddrG::Top),
         1 => any::<u16>().prop_map(AddrG::Misaligned),
+        2 => prop_oneof![
+            Just(1u64), Just(4095u64), Just(0x7fff_ffff_fff8u64), Just(0x8000_0000_0000u64), Just(0xffff_8000_0000_0000u64),
+            Just(0xffff_ffff_ff60_0000u64), Just(0xffff_ffff_ff60_0800u64), (0u64..0x20_0000).prop_map(|d| u64::MAX - d), Just(u64::MAX - 4095), Just(u64::MAX),
+        ].prop_map(AddrG::Abs),
     ]
 }
 
